@@ -45,7 +45,8 @@ DESTS = ['absent', 'file', 'symlink', 'dangling', 'directory', 'empty_file', 'sy
 WRITE_EXT = {'ds9': ['.reg', '.ds9'], 'crtf': ['.crtf'], 'fits': ['.fits', '.fit', '.fts']}
 READ_EXT = {'ds9': ['.ds9', '.reg', '.ds9.gz', '.reg.gz'], 'crtf': ['.crtf', '.crtf.gz'],
             'fits': ['.fits', '.fit', '.fts', '.fits.gz', '.fit.gz', '.fts.gz']}
-DIFFICULT = ['none', 'compound', 'sky_or_pixel_intruder', 'odd_frame', 'partial_components', 'rectangleannulus', 'text', 'nonascii_text']
+DIFFICULT = ['none', 'compound', 'sky_or_pixel_intruder', 'odd_frame', 'partial_components', 'rectangleannulus', 'text', 'nonascii_text',
+             'linebreak_text']
 OLD = b'PRECIOUS USER DATA\n' * 7
 
 
@@ -92,6 +93,11 @@ def _difficult(fmt, kind):
         if sky:
             return R.TextSkyRegion(SkyCoord(150 * u.deg, 20 * u.deg, frame='fk5'), '\u03b1 Cen \u2013 n\u00b0 5', meta={'label': '\u03b1'})
         return R.TextPixelRegion(PixCoord(5.0, 5.0), '\u03b1 Cen \u2013 n\u00b0 5')
+    if kind == 'linebreak_text':     # characters that str.splitlines() treats as line ends but the formats do not (only '\n' ends a line)
+        lab = 'page1\x0cpage2 \u2028 x\x85y \x1c z'
+        if sky:
+            return R.TextSkyRegion(SkyCoord(150 * u.deg, 20 * u.deg, frame='fk5'), lab)
+        return R.TextPixelRegion(PixCoord(5.0, 5.0), lab)
     if kind == 'text':
         if sky:
             return R.TextSkyRegion(SkyCoord(150 * u.deg, 20 * u.deg, frame='fk5'), 'words')
@@ -205,6 +211,8 @@ def check_write(res, fmt, dest, overwrite, entry, select, kind, pos, oi):
         kw = {'format': fmt}
     elif select == 'pathlib':             # the destination given as a pathlib.Path object instead of a string
         kw = {'format': fmt}
+    elif select == 'after_other_options':  # a history: an earlier write elsewhere used other options (FITS: a header naming another extension)
+        kw = {'format': fmt}
     elif select == 'unknown_format':
         kw = {'format': 'nope'}
     regs = make_list(fmt, kind, pos)
@@ -223,6 +231,19 @@ def check_write(res, fmt, dest, overwrite, entry, select, kind, pos, oi):
         if select == 'pathlib':
             import pathlib
             wpath = pathlib.Path(box.path)
+        if select == 'after_other_options':
+            other = {'ds9': {'precision': 2}, 'crtf': {'coordsys': 'galactic', 'fmt': '.2f', 'radunit': 'arcmin'},
+                     'fits': {'header': {'EXTNAME': 'SRCREG', 'TELESCOP': 'somewhere', 'HDUCLAS1': 'OTHER'}}}[fmt]
+            elsewhere = os.path.join(env.scratch(), f'c14_prev_{os.getpid()}{ext}')
+            try:
+                with warnings.catch_warnings():
+                    warnings.simplefilter('ignore')
+                    Regions(_base_list(fmt)).write(elsewhere, format=fmt, overwrite=True, **other)
+            except Exception:      # noqa: BLE001 -- only what it may leave behind matters
+                pass
+            finally:
+                if os.path.lexists(elsewhere):
+                    os.remove(elsewhere)
         try:
             with warnings.catch_warnings():
                 warnings.simplefilter('ignore')
@@ -259,6 +280,12 @@ def check_write(res, fmt, dest, overwrite, entry, select, kind, pos, oi):
                 res.violation(ID, 'existing_destination_wrong_exception', case,
                               f'{fmt}: destination ({dest}) existed, overwrite=False: raised {type(exc).__name__}: {exc} instead of OSError',
                               'OSError', type(exc).__name__)
+        if exc is not None and dest == 'absent' and kind == 'none' and oi == 0 and \
+                (select == 'explicit' or select.startswith('ext:') or select in ('pathlib', 'after_other_options')):
+            # nothing stands in the way of this write (representable regions, default options, a new path, a known format): the
+            # read-back clause speaks about such writes and would be vacuous if they failed
+            res.violation(ID, 'valid_write_raises', case, f'{fmt}: writing representable regions with default options to a new path raised '
+                                                          f'{type(exc).__name__}: {str(exc)[:160]}', 'a file', type(exc).__name__)
         if exc is not None:
             if after != before:
                 diff = [k for k in before if before[k] != after[k]]
@@ -331,9 +358,15 @@ def check_reuse(res, order):
         for step, fmt in enumerate(order):
             regs = _base_list(fmt)
             src = os.path.join(box.dir, f'src{step}' + WRITE_EXT[fmt][0])
-            with warnings.catch_warnings():
-                warnings.simplefilter('ignore')
-                Regions(regs).write(src, format=fmt)
+            try:
+                with warnings.catch_warnings():
+                    warnings.simplefilter('ignore')
+                    Regions(regs).write(src, format=fmt)
+            except Exception as e:          # noqa: BLE001 -- a plain write of representable regions to a new path
+                res.violation(ID, 'valid_write_raises', {**case, 'step': step},
+                              f'step {step} ({fmt}) of {order}: writing representable regions to a new path with default options raised '
+                              f'{type(e).__name__}: {str(e)[:160]}')
+                return
             with open(src, 'rb') as fh:
                 data = fh.read()
             with open(neutral, 'wb') as fh:
@@ -365,7 +398,7 @@ def cases(tier):
     out = []
     for fmt in FORMATS:
         selects = ['explicit'] + [f'ext:{e}' for e in WRITE_EXT[fmt]] + [f'ext:{e.upper()}' for e in WRITE_EXT[fmt]] + \
-            ['unknown_ext', 'unknown_format', 'no_ext', 'ext_prefix', 'tilde', 'pathlib']
+            ['unknown_ext', 'unknown_format', 'no_ext', 'ext_prefix', 'tilde', 'pathlib', 'after_other_options']
         for dest in DESTS:
             for ow in (False, True):
                 for entry in ('regions', 'region'):
